@@ -377,6 +377,18 @@ func checkC07(c *Ctx) {
 					}
 				}
 			}
+			// ... for EVERY source other than the local detector: with the edges that establish "source == Detector"
+			// removed, success is not reachable around the blocklist test
+			{
+				isDet := edgesEstablishing(v, atomMatcher(Atom{"(1 == reg.RegistrationSource)", true}))
+				isBL := func(in ssa.Instruction) bool {
+					call, ok := in.(*ssa.Call)
+					return ok && calleeShort(&call.Call) == "IsBlocklistedPhantom"
+				}
+				if hit, _ := reach(v, nil, isInstr(okRet), isBL, isDet); hit {
+					okB = false
+				}
+			}
 			r.Check(okB && len(nd) > 0, "C07.3", "ValidateRegistration: rejects blocklisted phantoms for non-detector sources", okRet.Pos(), fnName(v), "blocklist test must-pass on the source != Detector edge; its true edge never reaches success",
 				"a registration from a registrar for a blocklisted phantom is accepted")
 		}
@@ -595,5 +607,39 @@ func checkProbeVerdict(c *Ctx) {
 	})
 	if n == 0 {
 		r.Unk("C07.9", "phantomIsLive: not-live returns", f.Pos(), fnName(f), "no return of a false verdict found")
+	}
+}
+
+// checkPhantomBlocklistAllSources (C19.8, the same condition C07.3 includes): the phantom blocklist stands between every
+// registration and validation unless the registration comes from the local detector (whose own check is late in ingest).
+func checkPhantomBlocklistAllSources(c *Ctx, rule string) {
+	r := c.R
+	v := c.fn(rule, "pkg/station/lib", "RegistrationManager", "ValidateRegistration")
+	if v == nil {
+		return
+	}
+	var okRet *ssa.Return
+	eachInstr(v, func(in ssa.Instruction) {
+		if ret, ok := in.(*ssa.Return); ok {
+			if cv, isC := constOf(ret.Results[0]); isC && cv.String() == "true" {
+				okRet = ret
+			}
+		}
+	})
+	if okRet == nil {
+		r.Unk(rule, "ValidateRegistration: success return", v.Pos(), fnName(v), "not found")
+		return
+	}
+	isDet := edgesEstablishing(v, atomMatcher(Atom{"(1 == reg.RegistrationSource)", true}))
+	isBL := func(in ssa.Instruction) bool {
+		call, ok := in.(*ssa.Call)
+		return ok && calleeShort(&call.Call) == "IsBlocklistedPhantom"
+	}
+	hit, w := reach(v, nil, isInstr(okRet), isBL, isDet)
+	if hit {
+		r.Bad(rule, "ValidateRegistration: the phantom blocklist can be skipped for a source other than the local detector", okRet.Pos(), fnName(v),
+			"a registration whose source is not the local detector can be validated without the phantom blocklist test (the late check in ingest only covers the local detector): an accepted phantom_blocklist entry is not enforced for that source", r.blockPath(v, w)...)
+	} else {
+		r.OK(rule, "ValidateRegistration: every source but the local detector passes the phantom blocklist", okRet.Pos(), "success unreachable around IsBlocklistedPhantom once the source == Detector edges are removed")
 	}
 }
